@@ -16,6 +16,7 @@ package newrelic
 // Output $VERIF_OUT: {"histories":[{"steps":[{"reqs":[...], "appreply":..., "exited":bool, "hung":bool}]}]}
 
 import (
+	"net"
 	"bytes"
 	"encoding/json"
 	"errors"
@@ -76,6 +77,7 @@ type vpOp struct {
 	Tag0  int64             `json:"tag0"` // bulk: N transactions, each with one transaction event tag0+i, priority prio0+i
 	Prio0 int64             `json:"prio0"`
 	Then  *vpOp             `json:"then"` // tick: a transaction handed over right behind the harvest request, with no pause
+	Burst []vpOp            `json:"burst"` // txn: this and the following transactions arrive back to back on ONE agent connection
 }
 
 type vpHistory struct {
@@ -611,6 +613,41 @@ type vpRunner struct {
 	ahRun    map[*AppHarvest]AgentRunID
 	attempts []*vpReq // connect attempts in progress, in creation order (stage tracked by the last request)
 	reqs     []*vpReq // harvest / usage requests awaiting their reply, canonical order
+	wireC    net.Conn // agent side of a connection served by the real listener code (serve), opened on first use
+}
+
+// wire: the transactions of a burst travel over one agent connection served by the daemon's own connection loop
+// (serve -> conn.Serve -> CommandsHandler), written back to back while the processor is still busy with a message
+// sent ahead of them (a transaction for a run nobody holds).  Every message is the agent's own for as long as the
+// daemon keeps it: what is queued for the processor must not change when the next message is read.
+func (r *vpRunner) wire(ops []*vpOp, step *vpStep) {
+	if r.wireC == nil {
+		a, b := net.Pipe()
+		r.wireC = a
+		go serve(b, CommandsHandler{Processor: r.p})
+	}
+	mw := MessageWriter{W: r.wireC, Type: MessageTypeBinary}
+	lead := vpOp{Run: 999999, Prio: 1}
+	r.wireC.SetWriteDeadline(time.Now().Add(3 * time.Second))
+	if _, err := mw.Write(vpBuildTxn("verif-nobody", &lead)); err != nil {
+		step.Note = "wire: " + err.Error()
+	}
+	for _, op := range ops {
+		for _, it := range op.Items {
+			if it.Cat == "metrics" {
+				r.sm.metric[it.Slot] = it.Tag
+			}
+			if it.Cat == "slow" {
+				r.sm.slow[it.Slot] = it.Tag
+			}
+		}
+		if _, err := mw.Write(vpBuildTxn(fmt.Sprintf("r%d", op.Run), op)); err != nil {
+			step.Note = "wire: " + err.Error()
+		}
+	}
+	// the connection loop has read the last message once a further (empty, ignored) write is accepted
+	time.Sleep(200 * time.Microsecond)
+	r.settle(len(ops) + 1)
 }
 
 func vpErr(f string) collector.RPMResponse {
@@ -774,8 +811,16 @@ func (r *vpRunner) run(h *vpHistory) (obs vpObs) {
 		case "nop":
 			// the transaction of this step was handed over with the harvest request of the step before
 		case "txn":
-			r.handleTxn(op, &step)
-			r.settle(1)
+			if len(op.Burst) > 0 {
+				ops := []*vpOp{op}
+				for i := range op.Burst {
+					ops = append(ops, &op.Burst[i])
+				}
+				r.wire(ops, &step)
+			} else {
+				r.handleTxn(op, &step)
+				r.settle(1)
+			}
 		case "bulk":
 			// N plain transactions in one step (large reservoirs: payload splitting, the daemon maximum)
 			h := CommandsHandler{Processor: r.p}
@@ -970,7 +1015,11 @@ func vpRunHistory(h *vpHistory, settle time.Duration) vpObs {
 	}
 	r := &vpRunner{p: p, client: client, quietFor: settle, sm: &vpSlotMap{metric: map[int]int64{}, slow: map[int]int64{}},
 		ahSeen: map[*AppHarvest]bool{}, apps: map[*App]bool{}, ahRun: map[*AppHarvest]AgentRunID{}}
-	return r.run(h)
+	obs := r.run(h)
+	if r.wireC != nil {
+		r.wireC.Close()
+	}
+	return obs
 }
 
 func TestVerifProc(t *testing.T) {
